@@ -37,7 +37,7 @@ fn exec_steps(u: &mut Unstructured, depth: u32) -> Result<Vec<ExecStep>> {
     let n = u.int_in_range(0..=3usize)?;
     let mut v = vec![];
     for _ in 0..n {
-        let hi = if depth > 0 { 9 } else { 8 };
+        let hi = if depth > 0 { 10 } else { 9 };
         v.push(match u.int_in_range(0..=hi as u8)? {
             0 => {
                 let k = u.int_in_range(1..=3usize)?;
@@ -51,6 +51,7 @@ fn exec_steps(u: &mut Unstructured, depth: u32) -> Result<Vec<ExecStep>> {
             6 => ExecStep::LazyInsert(u.int_in_range(0..=7)?, sel(u)?, u.int_in_range(1..=999)?),
             7 => ExecStep::LazyRemove(u.int_in_range(0..=7)?, sel(u)?),
             8 => ExecStep::CreateNowWith(u.int_in_range(0..=7)?, u.int_in_range(1..=999)?),
+            9 => ExecStep::OtherWorld,
             _ => ExecStep::Nested(exec_steps(u, depth - 1)?),
         });
     }
@@ -60,7 +61,8 @@ fn exec_steps(u: &mut Unstructured, depth: u32) -> Result<Vec<ExecStep>> {
 fn op(u: &mut Unstructured) -> Result<Op> {
     let s = |u: &mut Unstructured| u.int_in_range(0..=7u8);
     let p = |u: &mut Unstructured| u.int_in_range(1..=999u32);
-    Ok(match u.int_in_range(0..=21u8)? {
+    Ok(match u.int_in_range(0..=22u8)? {
+        22 => Op::Deserialize(u.int_in_range(0..=3)?),
         0 => Op::CreateNow { comps: comps(u)?, built: u.int_in_range(0..=7u8)? != 0 },
         1 => Op::CreateIterNow(u.int_in_range(0..=5)?),
         2 => Op::CreateAtomic,
